@@ -83,10 +83,13 @@ def check_case(case):
             'name': 'cons'}
   cons = G.build(cshape, gin)
   prods = {}
+  def build_producer(name, api):
+    return G.build({'pos': [], 'dflt': ['v'], 'varargs': False, 'kwonly': [], 'kwdflt': [],
+                    'varkw': False, 'kind': 'function', 'api': api, 'name': name,
+                    'module': 'c04producers', 'mutate_scope': bool(case.get('mutate_scope'))}, gin)
+
   for name, api in zip(PRODUCERS, case['producer_apis']):
-    prods[name] = G.build({'pos': [], 'dflt': ['v'], 'varargs': False, 'kwonly': [], 'kwdflt': [],
-                           'varkw': False, 'kind': 'function', 'api': api, 'name': name,
-                           'mutate_scope': bool(case.get('mutate_scope'))}, gin)
+    prods[name] = build_producer(name, api)
   pmodel = {name: {} for name in PRODUCERS}
   lines = []
   for name, scope, value in case['producer_bindings']:
@@ -183,10 +186,22 @@ def check_case(case):
         # the binding of one parameter is replaced between two calls: the next call must deliver
         # the new tree (nothing about the old one may be remembered)
         param, tree = call['rebind']
-        gin.parse_config(f'cons.{param} = {render(tree)}')
+        lines.append(f'cons.{param} = {render(tree)}')
+        gin.parse_config(lines[-1])
         bound[param] = tree
         cfg0, stored0 = gin.config_str(), stored_repr()
         labels.add('rebind-between-calls')
+      if call.get('reregister') is not None:
+        # a producer is defined again under the same name (interactive mode: a notebook cell run
+        # twice) and the config text is parsed again: every reference, scoped or not, now denotes
+        # the configurable the name stands for *now*
+        name = PRODUCERS[call['reregister'] % len(PRODUCERS)]
+        api = case['producer_apis'][call['reregister'] % len(PRODUCERS)]
+        with gin.config.interactive_mode(), gin.config_scope(None):
+          prods[name] = build_producer(name, api)
+        gin.parse_config('\n'.join(lines))
+        cfg0, stored0 = gin.config_str(), stored_repr()
+        labels.add('producer-registered-again-then-reparse')
       args, kwargs, supplied = [], {}, {}
       for i, param in enumerate(PARAMS):
         how = call['how'][i]
@@ -296,6 +311,8 @@ def strategy(draw):
     if calls and draw(st.integers(0, 3)) == 0:
       rebind = [draw(st.sampled_from(PARAMS)), draw(_tree(2))]
     calls.append({'rebind': rebind, 'how': how,
+                  'reregister': (draw(st.integers(0, len(PRODUCERS) - 1))
+                                 if calls and draw(st.integers(0, 3)) == 0 else None),
                   'mutate': draw(st.booleans()) or draw(st.booleans())})
   return {
       'consumer_kind': draw(st.sampled_from(['function', 'function', 'class_init'])),
